@@ -30,6 +30,18 @@ _ep("C13", "Closure for v5 client and server senders with peer Topic Alias Maxim
 _ep("C14", "Closure for peer Maximum Packet Size L around every packet size of the alphabet (quick 6 values, thorough 2..14) x manual / auto-map / auto-replace, and own limit around inbound frame sizes: every RequestSendPacket (direct, automatic response, stored retransmission, alias-rewritten) must have size() and encoded length <= L; oversize stored packets dropped with id released; oversize inbound frames not delivered and answered with DISCONNECT 0x95.", "DESIGN.md §3 C14")
 _ep("C15", "Closure over keep-alive 0/1 (second connection with a different value), Server Keep Alive absent/0/2, override none/0/3, PINGRESP timeout 0/5, roles client/server/any, both versions: sends, receives, expiries of armed timers, interval changes, DISCONNECT each way, close, reconnect, deferred PUBREL while disconnected; the timer model derived from the event stream checks cancel-only-when-armed, nothing armed after close / DISCONNECT, no arming by local calls while disconnected, client re-arm with the prioritised interval, server 1.5 x keep-alive re-arm and never for 0, PINGRESP timer arm/cancel and the effect of every expiry.", "DESIGN.md §3 C15")
 _ep("C19", "The close-order rule (no RequestClose before a RequestSendPacket in one list; DISCONNECT / refusing CONNACK accompanied by a close request; keep-alive timeout on an established connection yields one) is evaluated on every event list of a closure run whose alphabet reaches every terminal path class (explicit DISCONNECT, refusing CONNACK, protocol errors, Receive Maximum exceeded, Topic Alias invalid, packet too large, CONNECT / CONNACK on an established connection, three timer expiries) for all roles and both versions; floors require each class to be observed.", "DESIGN.md §3 C19")
+CHECKS["C05"] = ("EXPLORE", MC, "explicit-state reach set of the real connection x exhaustive one-step stimulus alphabet (reach x stimulus)",
+   "Phase 1 enumerates breadth-first the states a correctly used connection reaches under contract-respecting local calls and valid peer traffic (roles client/server/any, v3.1.1 / v5.0 / undetermined, option-flag combinations; u16 and u32 identifiers) up to a state cap; phase 2 fires from every reached state every element of a stimulus alphabet (reference-encoded packets of every kind with boundary ids / limits, non-conformant frames, every single byte-level mutation and every length-consistent body truncation of every seed, 5-byte Remaining Length, raw 1- and 2-byte prefixes) followed by close + a fresh handshake. Oracle: no panic (overflow checks and debug assertions on), bounded event lists, every complete frame delivered / answered as a duplicate / reported, the object accepts a new connection.",
+   "Reach set bounded by depth / state cap (reported); one stimulus per connection. Trusts catch_unwind + overflow-checks as the panic oracle and the reference codec's framing.",
+   "DESIGN.md §3 C05")
+CHECKS["C11"] = ("SEND-MATRIX", MC, "exhaustive enumeration of the finite send matrix on the real connection",
+   "All cells role {Client, Server, Any-as-client, Any-as-server} x version {3.1.1, 5.0, undetermined} x status {disconnected fresh / after a connection, connecting, connected} x persistent x offline (each reached by real calls; undetermined x non-disconnected is unreachable) x all 29 packet kinds are executed on the real object (thorough: also with u32 identifiers): the MQTT rule table decides transmit / queue / refuse; a refusal must return exactly one error (+ the release of a freshly acquired id) and leave verif_state equal to the snapshot before the call. The compile-time clause is evaluated with an inherent-const-over-trait-const probe for 29 types x 3 roles and must equal the run-time role check and the MQTT table.",
+   "Finite table, fully enumerated. Trusts the rule table written from the specification text in c11.rs / refcodec.rs and the verif_state hook.",
+   "DESIGN.md §3 C11")
+CHECKS["C17"] = ("RECV-MATRIX+BISIM", MC, "exhaustive receive matrix over reach sets plus lock-step product exploration (bisimulation) of undetermined vs fixed-version servers",
+   "Matrix: from every reachable state of client / server / any connections (v3.1.1, v5.0, undetermined; closure of the session alphabet incl. CONNECT / CONNACK on an established connection) one minimal valid frame per packet-type nibble 0..15 (plus CONNECT with levels 0/3/6/255 for undetermined servers) is delivered; kinds the remote side of the role can never send, reserved types, and anything but CONNECT before a version is known must yield a protocol error, no delivery, nothing transmitted but a DISCONNECT and unchanged session state / version. Auto-detection: an undetermined server and a fixed-version server are stepped in lock-step through the closure of a session alphabet; from the adopting CONNECT on, canonical events and the full verif_state must be equal.",
+   "Bounded by the alphabets in the evidence; a cold CONNACK on a disconnected client is not judged. Trusts the verif_state hook and the reference codec.",
+   "DESIGN.md §3 C17")
 NOT_YET = {}
 
 def main():
